@@ -111,6 +111,99 @@ def queryPyTop (cfg : Cfg) : Nat → String → List Term → Gen
           | some chain => runChainPyTop cfg f chain args k w1
       | r => r
 
+/-! ### Every predicate run from its Python text
+
+The engine's mutual block once more, with one difference: a Prolog definition is executed by
+interpreting the `def` that `Emit` prints for it (`pyCall`), and so are the predicates it calls.
+`Yld.Proofs.PyDeep` proves that this is `query` in compiled mode. -/
+
+mutual
+/-- `query`, with every generated function run from its printed Python text (`Yld.Model.Py`). -/
+def queryD (cfg : Cfg) : Nat → String → List Term → Gen
+  | 0, _, _, _, w => (w, some .oof)
+  | f+1, name, args, k, w =>
+      match matchDynamic f name args k w with
+      | (w1, none) =>
+          if cfg.blacklist.contains name then (w1, none) else
+          match (cfg.defs.get (predKey name args.length)).orElse
+                  (fun _ => cfg.defs.get (variadicKey name)) with
+          | none => (w1, none)
+          | some chain => runChainD cfg f chain args k w1
+      | r => r
+
+def runChainD (cfg : Cfg) : Nat → List Def → List Term → Gen
+  | 0, _, _, _, w => (w, some .oof)
+  | _+1, [], _, _, w => (w, none)
+  | f+1, d :: ds, args, k, w =>
+      match runDefD cfg f d args k w with
+      | (w', none) => runChainD cfg f ds args k w'
+      | r => r
+def runDefD (cfg : Cfg) : Nat → Def → List Term → Gen
+  | 0, _, _, _, w => (w, some .oof)
+  | f+1, .prolog p _, args, k, w =>
+      -- the generated function, interpreted from its printed text; its callees likewise
+      pyCall (queryD cfg f) (unify f) (defOfPred p (compilePred p 0).1) args k w
+  | f+1, .py p, args, k, w => runPy f p.rows p.raiseAt 0 args k w
+  | f+1, .builtin b, args, k, w => runBuiltinD cfg f b args k w
+def runBuiltinD (cfg : Cfg) : Nat → String → List Term → Gen
+  | 0, _, _, _, w => (w, some .oof)
+  | f+1, b, args, k, w =>
+    match b, args with
+    | "=", [a, b] => unify f a b k w
+    | "\\=", [a, b] =>
+        -- builtin_neq: (X = Y -> fail ; true)
+        match queryD cfg f "=" [a, b] (fun w' => (w', some .stop)) w with
+        | (w', some .stop) => (w', none)
+        | (w', none) => k w'
+        | r => r
+    | "call", g :: extra => callGoalD cfg f g extra k w
+    | "once", [g] => onceGen (callGoalD cfg f g []) k w
+    | "findall", [tmpl, g, bag] =>
+        -- results = makelist([get_value(template) for r in call(goal)])
+        match callGoalD cfg f g [] (findallCollect f tmpl)
+                { w with acc := [] :: w.acc } with
+        | (w', none) =>
+            let results := w'.acc.headD []
+            unify f bag (mkList results) k { w' with acc := w'.acc.tail }
+        | (w', s) => ({ w' with acc := w'.acc.tail }, s)
+    | "assertz", [t] =>
+        match factNameArgs f w t with
+        | .error s => (w, some s)
+        | .ok (name, as) =>
+            match assertFact f name as true w with
+            | (w', none) => k w'
+            | r => r
+    | "asserta", [t] =>
+        match factNameArgs f w t with
+        | .error s => (w, some s)
+        | .ok (name, as) =>
+            match assertFact f name as false w with
+            | (w', none) => k w'
+            | r => r
+    | "retract", [t] =>
+        match factNameArgs f w t with
+        | .error s => (w, some s)
+        | .ok (name, as) => retractLoop f name as (w.facts name as.length) k w
+    | "retractall", [t] =>
+        match factNameArgs f w t with
+        | .error s => (w, some s)
+        | .ok (name, as) =>
+            match retractAllLoop f as (w.facts name as.length) [] w with
+            | (w', .ok keep) => k (w'.setFacts name as.length keep)
+            | (w', .error s) => (w', some s)
+    | _, _ => (w, some (.exn "TypeError"))     -- wrong number of arguments for a fixed-arity builtin
+
+def callGoalD (cfg : Cfg) : Nat → Term → List Term → Gen
+  | 0, _, _, _, w => (w, some .oof)
+  | f+1, g, extra, k, w =>
+      match walk w.b (f+1) g with
+      | none => (w, some .oof)
+      | some (.atom s) => queryD cfg f s extra k w
+      | some (.fn name as) => queryD cfg f name (as ++ extra) k w
+      | some _ => (w, some (.exn "YPException"))
+end
+
+
 def Engine.query (e : Engine) (mode : Mode) (fuel : Nat) (name : String) (args : List Term)
     (sched : Sched) (pyTop : Bool := false) : Engine × QueryResult :=
   let cfg : Cfg := { blacklist := e.blacklist, defs := e.defs, mode := mode }
@@ -119,7 +212,7 @@ def Engine.query (e : Engine) (mode : Mode) (fuel : Nat) (name : String) (args :
     match sched with
     | .stop 0 => (w0, some Sig.stop)
     | .raise 0 => (w0, some (Sig.exn "ConsumerError"))
-    | _ => if pyTop then queryPyTop cfg fuel name args (topConsumer fuel args sched) w0
+    | _ => if pyTop then queryD cfg fuel name args (topConsumer fuel args sched) w0
            else Yld.query cfg fuel name args (topConsumer fuel args sched) w0
   let answers := w1.acc.headD []
   let w2 := { w1 with acc := w1.acc.tail }
